@@ -14,9 +14,10 @@ func ObligScript(o *Oblig, models bool) string {
 
 // GroupScript renders one query for a chain of obligations whose path
 // conditions extend one another: hyps(first) and not AND_j (suffix_j => goal_j).
-func GroupScript(os []*Oblig, models bool) string {
+// groupGoal is the conjunction of the goals of a chain of obligations, each under the part of its path condition that
+// extends the first one's.
+func groupGoal(os []*Oblig) *smt.Term {
 	first := os[0]
-	hyps := append([]*smt.Term(nil), first.HypList()...)
 	var goals []*smt.Term
 	for i, o := range os {
 		if o.Goal == nil {
@@ -28,10 +29,22 @@ func GroupScript(os []*Oblig, models bool) string {
 			goals = append(goals, smt.Implies(smt.And(o.Suffix(first)...), o.Goal))
 		}
 	}
-	var goal *smt.Term
-	if len(goals) > 0 {
-		goal = smt.And(goals...)
+	if len(goals) == 0 {
+		return nil
 	}
+	return smt.And(goals...)
+}
+
+// GroupKey is the structural cache key of the query GroupScript would print (the constant-table axioms are a function of
+// the hypotheses and the goal, so they need not be part of the key).
+func GroupKey(os []*Oblig) string {
+	return QueryKey(os[0].HypList(), groupGoal(os))
+}
+
+func GroupScript(os []*Oblig, models bool) string {
+	first := os[0]
+	hyps := append([]*smt.Term(nil), first.HypList()...)
+	goal := groupGoal(os)
 	all := append([]*smt.Term(nil), hyps...)
 	if goal != nil {
 		all = append(all, goal)
